@@ -2,7 +2,8 @@
    [handler_rel op af f]: for every configuration, header, context, body, filesystem answer and
    capacity, the async handler [af] makes the same filesystem calls as the sync handler [f] and takes the
    corresponding reply action -- for filesystem answers the async trait can express (no passthrough
-   backing id) and, for WRITE only, a size the async handler does not refuse. *)
+   backing id) and, for WRITE only, a size the async handler does not refuse.  Everything is proved for
+   an arbitrary [shape] (Model/ServerAsync.v), i.e. for the code as it is and for the repaired code. *)
 From Coq Require Import List String NArith Bool Lia Arith.
 From FB Require Import Lib.Bytes Model.Server Model.ServerCmp Model.ServerAsync
                        Proofs.ServerPerform Proofs.ServerAsyncPerform.
@@ -26,13 +27,13 @@ Definition big_write (r : bytes) : bool :=
 
 Definition dec_to_sync (d : adecision) : decision := (fst d, to_sync (snd d)).
 
-Definition handler_rel (op : N) (af : ahandler_fn) (f : handler_fn) : Prop :=
+Definition handler_rel (sh : shape) (op : N) (af : ahandler_fn) (f : handler_fn) : Prop :=
   forall cfg h ctx r fr wcap,
-    async_expressible fr = true -> (op = 16 -> big_write r = false) ->
+    async_expressible fr = true -> (op = 16 -> (sh_write_gate sh && big_write r) = false) ->
     dec_to_sync (af cfg h ctx r fr wcap) = f cfg h ctx r fr wcap.
 
 (* the fall-back arms: the async dispatch calls the very same sync handler *)
-Lemma rel_fallback op f : handler_rel op (fallback f) f.
+Lemma rel_fallback sh op f : handler_rel sh op (fallback f) f.
 Proof.
   intros cfg h ctx r fr wcap _ _. unfold fallback, dec_to_sync.
   destruct (f cfg h ctx r fr wcap) as [cs a]. reflexivity.
@@ -49,13 +50,13 @@ Ltac solve_rel :=
                   entry_reply dec_to_sync];
   repeat break_match; subst; cbn [fst snd to_sync]; try reflexivity; try discriminate.
 
-Lemma rel_lookup : handler_rel 1 ah_lookup (h_lookup 1).
+Lemma rel_lookup sh : handler_rel sh 1 ah_lookup (h_lookup 1).
 Proof. unfold ah_lookup, h_lookup. solve_rel. Qed.
 
-Lemma rel_getattr : handler_rel 3 ah_getattr (h_getattr 3).
+Lemma rel_getattr sh : handler_rel sh 3 ah_getattr (h_getattr 3).
 Proof. unfold ah_getattr, h_getattr. solve_rel. Qed.
 
-Lemma rel_setattr : handler_rel 4 ah_setattr (h_setattr 4).
+Lemma rel_setattr sh : handler_rel sh 4 ah_setattr (h_setattr 4).
 Proof. unfold ah_setattr, h_setattr. solve_rel. Qed.
 
 (* open / create: the answer carries no passthrough id ([async_expressible]), so `..Default::default()`
@@ -66,13 +67,13 @@ Ltac no_passthrough :=
   | H : async_expressible (FCreate _ _ _ ?p) = true |- _ => destruct p; [discriminate H|]
   end.
 
-Lemma rel_open : handler_rel 14 ah_open (h_open 14).
+Lemma rel_open sh : handler_rel sh 14 ah_open (h_open 14).
 Proof. unfold ah_open, h_open. solve_rel. no_passthrough. reflexivity. Qed.
 
-Lemma rel_read : handler_rel 15 ah_read (h_read 15).
+Lemma rel_read sh : handler_rel sh 15 ah_read (h_read 15).
 Proof. unfold ah_read, h_read. solve_rel. Qed.
 
-Lemma rel_write : handler_rel 16 ah_write (h_write 16).
+Lemma rel_write sh : handler_rel sh 16 (ah_write sh) (h_write 16).
 Proof.
   unfold ah_write, h_write.
   intros cfg h ctx r fr wcap Hx Hw. specialize (Hw eq_refl). unfold big_write in Hw.
@@ -81,42 +82,42 @@ Proof.
   rewrite Hw. destruct fr; reflexivity.
 Qed.
 
-Lemma rel_fsync : handler_rel 20 ah_fsync (h_fsync 20).
+Lemma rel_fsync sh : handler_rel sh 20 ah_fsync (h_fsync 20).
 Proof. unfold ah_fsync, h_fsync. solve_rel. Qed.
 
-Lemma rel_fsyncdir : handler_rel 30 ah_fsyncdir (h_fsyncdir 30).
+Lemma rel_fsyncdir sh : handler_rel sh 30 ah_fsyncdir (h_fsyncdir 30).
 Proof. unfold ah_fsyncdir, h_fsyncdir. solve_rel. Qed.
 
-Lemma rel_create : handler_rel 35 ah_create (h_create 35).
+Lemma rel_create sh : handler_rel sh 35 ah_create (h_create 35).
 Proof. unfold ah_create, h_create, CREATE_ATTR_FLAGS. solve_rel. no_passthrough. reflexivity. Qed.
 
-Lemma rel_fallocate : handler_rel 43 ah_fallocate (h_fallocate 43).
+Lemma rel_fallocate sh : handler_rel sh 43 ah_fallocate (h_fallocate 43).
 Proof. unfold ah_fallocate, h_fallocate. solve_rel. Qed.
 
 (* ------------------------------------------------------------------ the whole table *)
-Definition entry_rel (a : N * bool * ahandler_fn) (b : N * handler_fn) : Prop :=
-  fst (fst a) = fst b /\ handler_rel (fst b) (snd a) (snd b).
+Definition entry_rel (sh : shape) (a : N * bool * ahandler_fn) (b : N * handler_fn) : Prop :=
+  fst (fst a) = fst b /\ handler_rel sh (fst b) (snd a) (snd b).
 
-Lemma table_rel : Forall2 entry_rel async_handlers handlers.
+Lemma table_rel sh : Forall2 (entry_rel sh) (async_handlers sh) handlers.
 Proof.
   unfold async_handlers, handlers.
   repeat (apply Forall2_cons;
           [split; [reflexivity |
-                   first [ apply rel_fallback | exact rel_lookup | exact rel_getattr | exact rel_setattr
-                         | exact rel_open | exact rel_read | exact rel_write | exact rel_fsync
-                         | exact rel_fsyncdir | exact rel_create | exact rel_fallocate ]] |]).
+                   first [ apply rel_fallback | exact (rel_lookup sh) | exact (rel_getattr sh) | exact (rel_setattr sh)
+                         | exact (rel_open sh) | exact (rel_read sh) | exact (rel_write sh) | exact (rel_fsync sh)
+                         | exact (rel_fsyncdir sh) | exact (rel_create sh) | exact (rel_fallocate sh) ]] |]).
   apply Forall2_nil.
 Qed.
 
-Definition found_rel (op : N) (x : option ahandler_fn) (y : option handler_fn) : Prop :=
+Definition found_rel (sh : shape) (op : N) (x : option ahandler_fn) (y : option handler_fn) : Prop :=
   match x, y with
-  | Some af, Some f => handler_rel op af f
+  | Some af, Some f => handler_rel sh op af f
   | None, None => True
   | _, _ => False
   end.
 
-Lemma find_rel t1 t2 : Forall2 entry_rel t1 t2 ->
-  forall op, found_rel op (find_ahandler op t1) (find_handler op t2).
+Lemma find_rel sh t1 t2 : Forall2 (entry_rel sh) t1 t2 ->
+  forall op, found_rel sh op (find_ahandler op t1) (find_handler op t2).
 Proof.
   induction 1 as [|[[o b] af] [o' f] t1 t2 [Ho Hr] _ IH]; intro op; cbn [find_ahandler find_handler].
   - exact I.
@@ -125,19 +126,19 @@ Proof.
 Qed.
 
 (* the dispatch step: same calls, corresponding action, for every opcode (known or not) *)
-Lemma async_handler_rel cfg h ctx r fr wcap :
-  async_expressible fr = true -> (h_opcode h = 16 -> big_write r = false) ->
-  dec_to_sync (async_handler cfg h ctx r fr wcap) = handler cfg h ctx r fr wcap.
+Lemma async_handler_rel sh cfg h ctx r fr wcap :
+  async_expressible fr = true -> (h_opcode h = 16 -> (sh_write_gate sh && big_write r) = false) ->
+  dec_to_sync (async_handler sh cfg h ctx r fr wcap) = handler cfg h ctx r fr wcap.
 Proof.
   intros Hx Hw. unfold async_handler, handler.
-  pose proof (find_rel _ _ table_rel (h_opcode h)) as F. unfold found_rel in F.
-  destruct (find_ahandler (h_opcode h) async_handlers) as [af|];
+  pose proof (find_rel sh _ _ (table_rel sh) (h_opcode h)) as F. unfold found_rel in F.
+  destruct (find_ahandler (h_opcode h) (async_handlers sh)) as [af|];
   destruct (find_handler (h_opcode h) handlers) as [f|]; try contradiction.
   - apply F; assumption.
   - reflexivity.
 Qed.
 
 (* which opcodes go through an async handler at all *)
-Definition async_ops : list N := map (fun e => fst (fst e)) (filter (fun e => snd (fst e)) async_handlers).
-Lemma async_ops_are : async_ops = [1; 3; 4; 14; 15; 16; 20; 30; 35; 43].
+Definition async_ops (sh : shape) : list N := map (fun e => fst (fst e)) (filter (fun e => snd (fst e)) (async_handlers sh)).
+Lemma async_ops_are sh : async_ops sh = [1; 3; 4; 14; 15; 16; 20; 30; 35; 43].
 Proof. reflexivity. Qed.
